@@ -228,6 +228,21 @@ Definition step_ok (r : rep) (area paint img pos obs : Q) : bool :=
   | _ => match draw_axis r area paint img pos with Some (s, _) => close tol4 s obs | None => false end
   end.
 
+(* `round`: round(area / image) is computed in floating point by the implementation; when the quotient is (nearly) a
+   half-integer either neighbouring count is legitimate: the layer is then judged by the specification only *)
+Definition near_half (q : Q) : bool := close tol6 (q - inject_Z (Qround.Qfloor q)) (1 # 2).
+Definition round_tie (i : intr) (size : bgsize) (pw ph : Q) (rx ry : rep) : bool :=
+  match bg_size i size pw ph with
+  | Some (w, h) =>
+      let tx := is_round rx && negb (Qeq_bool w 0) && near_half (pw / w) in
+      tx ||
+      match round_step (is_round rx) (is_round ry) (size_auto_h size) pw w h with
+      | Some (_, h1) => is_round ry && negb (Qeq_bool h1 0) && near_half (ph / h1)
+      | None => false
+      end
+  | None => false
+  end.
+
 Definition bgmon_judge (c : bgmon_case) : nat :=
   let '(i3, size, (pw, ph), (rgt, btm), (px, py), (rx, ry), (paw, pah), (ox, oy), out) := c in
   let i := mk_intr i3 in
@@ -250,6 +265,7 @@ Definition bgmon_judge (c : bgmon_case) : nat :=
               end
           | _, _, _ => false
           end in
-      (bit 1 b1 + bit 4 b4 + bit 2 (bg_spec_approx i size pw ph rx ry l))%nat
+      let tie := round_tie i size pw ph rx ry in
+      (bit 1 (b1 || tie) + bit 4 (b4 || tie) + bit 2 (bg_spec_approx i size pw ph rx ry l))%nat
   | _, _ => 1%nat
   end.
